@@ -8,6 +8,8 @@ EXTENDS MapDict, Json, TLC
 CONSTANTS Keys, KSz, VSizes, Limit,
           DigMode,     \* "spread": distinct first-level digests; "clustered": tiny alphabets per level
           Persist,     \* sprinkle commit / drop cache / crash events
+          PersistEvery, \* ... only at every n-th step (TLC's simulator picks an ACTION uniformly: six persistence actions against two
+                       \* growth actions would otherwise spend three steps in four on persistence events)
           AllowPop,    \* bulk pops in the churn phase
           GrowUntil, ShrinkFrom, EmitDepth,
           FanFrom      \* print the history at every length FanFrom..EmitDepth: TLC evaluates the printing invariant on EVERY candidate
@@ -41,9 +43,10 @@ HasK(k) == UNCHANGED <<dict, nextId, cdict, hasc>> /\ hist' = Append(hist, <<"mh
 
 Growing == Len(hist) <= GrowUntil
 Shrinking == Len(hist) > ShrinkFrom
-Commit(md, w) == Persist /\ cdict' = dict /\ hasc' = TRUE /\ UNCHANGED <<dict, nextId>> /\ hist' = Append(hist, <<"commit", md, w, 0>>)
-DropCache == Persist /\ UNCHANGED <<dict, nextId, cdict, hasc>> /\ hist' = Append(hist, <<"dropcache">>)
-Crash == Persist /\ ~Growing /\ hasc /\ dict' = cdict /\ UNCHANGED <<nextId, cdict, hasc>> /\ hist' = Append(hist, <<"crash">>)
+PStep == PersistEvery <= 1 \/ Len(hist) % PersistEvery = 0
+Commit(md, w) == Persist /\ PStep /\ cdict' = dict /\ hasc' = TRUE /\ UNCHANGED <<dict, nextId>> /\ hist' = Append(hist, <<"commit", md, w, 0>>)
+DropCache == Persist /\ PStep /\ UNCHANGED <<dict, nextId, cdict, hasc>> /\ hist' = Append(hist, <<"dropcache">>)
+Crash == Persist /\ PStep /\ ~Growing /\ hasc /\ dict' = cdict /\ UNCHANGED <<nextId, cdict, hasc>> /\ hist' = Append(hist, <<"crash">>)
 PopAll == AllowPop /\ Len(dict) > 0 /\ Len(hist) % 11 = 0 /\ dict' = <<>> /\ UNCHANGED <<nextId, cdict, hasc>> /\ hist' = Append(hist, <<"mpop">>)
 Present == {k \in Keys : HasKey(dict, k)}
 \* Inside a fan window every insert, overwrite and removal is ONE action (a single existential over a state-dependent set), because
